@@ -16,6 +16,7 @@ import (
 	"log/slog"
 	"math/rand"
 	"net"
+	"os"
 	"runtime"
 	"sort"
 	"strings"
@@ -205,6 +206,50 @@ func lsScenarios(rng *rand.Rand) []lsScenario {
 			{"Ledger.Unmarshal", func(i int) { _ = led.Unmarshal([]byte(`{"auth":[{"allow":true}]}`)) }},
 		}})
 	}
+	{ // a real connection whose queued writes fail while more are queued (Client.WriteLoop ->
+		// flushIdle): a subscriber with a small Maximum Packet Size receives bursts in which
+		// oversized messages are followed by small ones.  Every burst must end with at least one
+		// more packet arriving at the subscriber: a lock leaked on the failure path stops the write
+		// loop for ever and the burst never completes.
+		srv := mqtt.New(&mqtt.Options{InlineClient: true, Logger: quietLogger()})
+		_ = srv.AddHook(new(auth.AllowHook), nil)
+		bEnd, cEnd := memPipe()
+		go func() { _ = srv.EstablishConnection("t1", bEnd) }()
+		var nops, recv uint64
+		c := &rcClient{conn: cEnd, version: 5, nextID: 1, ops: &nops, recv: &recv}
+		c.send(packets.Packet{FixedHeader: packets.FixedHeader{Type: packets.Connect},
+			Connect:    packets.ConnectParams{ProtocolName: []byte("MQTT"), ClientIdentifier: "small", Keepalive: 60, Clean: true},
+			Properties: packets.Properties{MaximumPacketSize: 48}})
+		c.send(packets.Packet{FixedHeader: packets.FixedHeader{Type: packets.Subscribe, Qos: 1}, PacketID: 1,
+			Filters: packets.Subscriptions{{Filter: "big/#", Qos: 0}}})
+		done := make(chan struct{})
+		go c.reader(done)
+		for i := 0; i < 500; i++ { // wait for the subscription
+			if _, ok := srv.Topics.Subscribers("big/x").Subscriptions["small"]; ok {
+				break
+			}
+			time.Sleep(time.Millisecond)
+		}
+		big := make([]byte, 200)
+		var mu sync.Mutex // one burst at a time, so that "one more packet" is this burst's
+		out = append(out, lsScenario{"WriteLoop-failed-write", []lsOp{
+			{"burst(small, oversized, small, ...) then wait for a delivery", func(i int) {
+				mu.Lock()
+				defer mu.Unlock()
+				before := atomic.LoadUint64(&recv)
+				for k := 0; k < 6; k++ {
+					pl := []byte("s")
+					if k%3 == 1 {
+						pl = big
+					}
+					_ = srv.Publish("big/x", pl, false, 0)
+				}
+				for atomic.LoadUint64(&recv) == before {
+					time.Sleep(20 * time.Microsecond)
+				}
+			}},
+		}})
+	}
 	_ = rng
 	return out
 }
@@ -271,6 +316,9 @@ func runScenario(sc lsScenario, iters int, stall time.Duration) (bool, uint64, s
 func lockFrames() string {
 	buf := make([]byte, 1<<20)
 	n := runtime.Stack(buf, true)
+	if os.Getenv("HX_DUMP") != "" {
+		os.Stderr.Write(buf[:n])
+	}
 	var out []string
 	seen := map[string]int{}
 	for _, g := range strings.Split(string(buf[:n]), "\n\n") {
@@ -280,6 +328,9 @@ func lockFrames() string {
 		lines := strings.Split(g, "\n")
 		var fr []string
 		for _, l := range lines {
+			if strings.HasPrefix(l, "sync.(*Mutex).lockSlow") || (strings.HasPrefix(l, "sync.(*Mutex).Lock") && strings.Contains(g, "sync.(*RWMutex).Lock")) {
+				continue
+			}
 			if strings.HasPrefix(l, "sync.(") || strings.HasPrefix(l, "github.com/mochi-mqtt/server/v2") {
 				if i := strings.Index(l, "("); i > 0 && strings.HasPrefix(l, "github.com") {
 					l = strings.TrimPrefix(l, "github.com/mochi-mqtt/server/v2")
@@ -288,7 +339,7 @@ func lockFrames() string {
 					l = l[:k]
 				}
 				fr = append(fr, l)
-				if len(fr) == 3 {
+				if len(fr) == 4 {
 					break
 				}
 			}
